@@ -21,7 +21,7 @@ RULE = ("random removal-enabled temporal graphs of both classes (3-6 nodes, <= 7
 MIN = {"quick": {"dag:acyclic": 20000, "edge:sound": 100000, "sources==expected": 20000, "invalid-window": 4000},
        "thorough": {"dag:acyclic": 400000, "edge:sound": 2000000, "sources==expected": 400000, "invalid-window": 80000}}
 REQUIRED_CELLS = {t: ("class:DynGraph", "class:DynDiGraph", "ids:int", "ids:str", "window:inside", "window:default",
-                      "invalid:start<first", "invalid:end>last", "invalid:start>end", "empty-graph", "second-life", "long-timeline", "root:isolated", "target:aliased")
+                      "invalid:start<first", "invalid:end>last", "invalid:start>end", "empty-graph", "second-life", "long-timeline", "root:isolated", "target:aliased", "target:isolated")
                   for t in ("quick", "thorough")}
 
 
@@ -130,6 +130,15 @@ def _one_graph_body(ctx, dn, G, m, nodes, strings, exhaustive):
     G.add_node(lonely)
     ctx.cell("root:isolated")
     invalid(ctx, al, G, m, lonely)
+    # ... and an isolated node as explicit target leaves the sources what they are
+    for u in [n for n in nodes if n in m.nodes][:3]:
+        ctx.cell("target:isolated")
+        check(ctx, al, G, m, u, lonely, None, None, conv)
+    ids_ = m.ids()
+    if ids_[0] < 0 <= ids_[-1]:
+        for u in [n for n in nodes if n in m.nodes][:3]:
+            ctx.cell("window:start=0")
+            check(ctx, al, G, m, u, None, 0, ids_[-1], conv)
     if not strings:
         # an equal-but-differently-printed target (2.0 for 2, True for 1): whatever is returned as a target must
         # be a node of the DAG
